@@ -462,6 +462,20 @@ pub fn run_point(root: &Path, p: &Point) -> PointResult {
     for (i, (k, h)) in p.readers.iter().enumerate() {
         plant_level(root, &level_name(i), *k, *h, p.size, old);
     }
+    // an unrelated entry sits in every existing level: no operation on `key` may disturb it
+    let bystander = KeySpec::new("bystander", 0x7777_0000_1111_2222, 0x3333_4444_5555_6666);
+    if let Some((k, _)) = p.writer {
+        let d = dirspec("W", k).candidate_dirs(root, &bystander)[0].clone();
+        plant_file(&d.join("bystander"), &Val::new("bystander", 9, 9, 17).encode(), 0o444);
+        set_times_ns(&d.join("bystander"), old - 120_000_000_000, old - 5_000_000_000).unwrap();
+    }
+    for (i, (k, h)) in p.readers.iter().enumerate() {
+        if *h != Hold::NoDir {
+            let d = dirspec(&level_name(i), *k).candidate_dirs(root, &bystander)[0].clone();
+            plant_file(&d.join("bystander"), &Val::new("bystander", 9, 9, 17).encode(), 0o444);
+            set_times_ns(&d.join("bystander"), old - 120_000_000_000, old - 5_000_000_000).unwrap();
+        }
+    }
     let before = snapshot(root);
     let spec = StackSpec {
         writer: p.writer.map(|(k, _)| dirspec("W", k)),
@@ -599,6 +613,13 @@ pub fn run_point(root: &Path, p: &Point) -> PointResult {
                 }
             }
             level += 1;
+        }
+    }
+    // ---- C13: unrelated entries are untouched (eviction is out of play: capacities are huge)
+    for (path, b) in before.iter().filter(|(p, e)| e.kind == 'f' && p.ends_with("/bystander")) {
+        match after.get(path) {
+            Some(a) if a.ino == b.ino && a.hash == b.hash && a.mtime == b.mtime && a.atime == b.atime && a.mode == b.mode => {}
+            other => add("C13", "c13:bystander-disturbed", format!("an operation on `key` changed the unrelated entry {} ({:?} -> {:?}) at {}", path, (b.ino, b.mtime, b.atime, b.mode), other.map(|a| (a.ino, a.mtime, a.atime, a.mode)), desc)),
         }
     }
     // ---- C14: recording checker sees every redundant copy; no checker => later copies not consulted
